@@ -235,7 +235,7 @@ pub struct VShape {
     pub segs: Vec<Seg>,
 }
 
-pub const QUEUE_REGION: usize = 0x10000;
+pub const QUEUE_REGION: usize = if cfg!(miri) { 0x2000 } else { 0x10000 };
 pub const REGION_STRIDE: u64 = 0x1000_0000;
 pub const PAGE: usize = 4096;
 
@@ -280,7 +280,7 @@ impl VShape {
             segs.push(Seg { writable: *w, region, off, len: *len });
             cursors[region] = off + len;
         }
-        let regions = cursors.iter().map(|c| ((c + 64 + PAGE - 1) / PAGE) * PAGE + PAGE).collect();
+        let regions = cursors.iter().map(|c| ((c + 64 + PAGE - 1) / PAGE) * PAGE + if cfg!(miri) { 0 } else { PAGE }).collect();
         VShape { regions, segs }
     }
 }
@@ -302,8 +302,13 @@ impl VMem {
         let mut v = VMem { mem, shape: shape.clone(), snap: vec![] };
         for (i, sz) in shape.regions.iter().enumerate() {
             let p = v.host(i, 0);
-            for o in 0..*sz {
-                unsafe { *p.add(o) = pattern(i, o) };
+            if cfg!(miri) {
+                // one interpreter step instead of one per byte
+                unsafe { std::ptr::write_bytes(p, 0xA5, *sz) };
+            } else {
+                for o in 0..*sz {
+                    unsafe { *p.add(o) = pattern(i, o) };
+                }
             }
         }
         v.snapshot();
@@ -382,43 +387,52 @@ impl VMem {
     pub fn diff(&self) -> VDiff {
         let mut stray = None;
         let mut touched = std::collections::BTreeSet::new();
-        // map writable offsets
         let mut wbytes = Vec::with_capacity(self.shape.writable_len());
         let mut wmod = Vec::with_capacity(self.shape.writable_len());
-        // first: every region byte outside writable segments must be unchanged
         for (ri, sz) in self.shape.regions.iter().enumerate() {
             let p = self.host(ri, 0);
             let cur = unsafe { std::slice::from_raw_parts(p, *sz) };
-            // collect writable intervals in this region
+            let snap = &self.snap[ri];
+            // pages containing a modified byte (slice compares: one step per page)
+            for pg in 0..(*sz / PAGE) {
+                if cur[pg * PAGE..(pg + 1) * PAGE] != snap[pg * PAGE..(pg + 1) * PAGE] {
+                    touched.insert((ri, pg));
+                }
+            }
+            // every byte outside the writable descriptors must be unchanged
             let mut w: Vec<(usize, usize)> =
                 self.shape.segs.iter().filter(|s| s.writable && s.region == ri && s.len > 0).map(|s| (s.off, s.off + s.len)).collect();
             w.sort();
-            let mut wi = 0;
-            let mut o = 0;
-            while o < *sz {
-                while wi < w.len() && w[wi].1 <= o {
-                    wi += 1;
+            let mut o = 0usize;
+            let mut gaps: Vec<(usize, usize)> = Vec::new();
+            for (a, b) in &w {
+                if *a > o {
+                    gaps.push((o, *a));
                 }
-                let in_w = wi < w.len() && o >= w[wi].0;
-                let exp = self.snap[ri][o];
-                if cur[o] != exp {
-                    touched.insert((ri, o / PAGE));
-                    if !in_w && stray.is_none() {
-                        stray = Some(format!(
-                            "guest memory outside the writable descriptors modified: region {} offset {:#x} ({:#x} -> {:#x})",
-                            ri, o, exp, cur[o]
-                        ));
-                    }
+                o = o.max(*b);
+            }
+            if o < *sz {
+                gaps.push((o, *sz));
+            }
+            for (a, b) in gaps {
+                if cur[a..b] != snap[a..b] && stray.is_none() {
+                    let k = (a..b).find(|k| cur[*k] != snap[*k]).unwrap();
+                    stray = Some(format!(
+                        "guest memory outside the writable descriptors modified: region {} offset {:#x} ({:#x} -> {:#x})",
+                        ri, k, snap[k], cur[k]
+                    ));
                 }
-                o += 1;
             }
         }
         for s in self.shape.segs.iter().filter(|s| s.writable) {
             let p = self.host(s.region, s.off);
             let cur = unsafe { std::slice::from_raw_parts(p, s.len) };
-            for (k, b) in cur.iter().enumerate() {
-                wbytes.push(*b);
-                wmod.push(*b != self.snap[s.region][s.off + k]);
+            let snap = &self.snap[s.region][s.off..s.off + s.len];
+            wbytes.extend_from_slice(cur);
+            if cur == snap {
+                wmod.resize(wmod.len() + s.len, false);
+            } else {
+                wmod.extend(cur.iter().zip(snap.iter()).map(|(a, b)| a != b));
             }
         }
         VDiff { wbytes, wmod, stray, touched_pages: touched.into_iter().collect() }
